@@ -370,6 +370,16 @@ theorem parser_alloc_bound {σ : Type} (P : Bytes → Option σ) (blob : Bytes) 
       rw [← hr, List.map_append, List.sum_append] at this
       omega
 
+/-- `parserCalls` is exactly the call sequence of a left-to-right `find_map`: the result is the parser's answer on the
+LAST call, and every earlier call answered `None` -/
+theorem parser_calls_faithful {σ : Type} (P : Bytes → Option σ) (blob : Bytes) :
+    Pgp.parseSignature P blob = (parserCalls P blob).getLast?.bind P
+      ∧ ∀ p ∈ (parserCalls P blob).dropLast, P p = none := by
+  unfold Pgp.parseSignature parserCalls
+  cases splitPackets blob with
+  | none => exact ⟨rfl, fun p hp => by cases hp⟩
+  | some ps => exact consulted_faithful P ps
+
 /-- broken framing: the parser is not called at all -/
 theorem parser_not_called_on_broken_framing {σ : Type} (P : Bytes → Option σ) (blob : Bytes)
     (h : splitPackets blob = none) : parserCalls P blob = [] ∧ Pgp.parseSignature P blob = none := by
